@@ -3,29 +3,41 @@
 
    Every mutation of the vault happens inside `async with self._guard`; one label = one such
    critical section (the `wait_for` inside `invalidate` splits its section in two: `Invalidate`
-   and the later `Wake`).  Credentials expiry (`_expire`) is not modelled. *)
+   and the later `Wake`; likewise `_expire` inside `_items`: `Expire` and the later `WakeExp`).
+   Expiry follows the code: `_expire()` runs in `_items` right before `select()` with the wall clock
+   `now`; items whose `expiration <= now` are dropped WITHOUT being remembered in `_invalid`; if that
+   empties the vault the requester triggers a re-authentication and waits.  The post-yield check of
+   `_items` ("is the yielded item still the current one?") is the `Recheck` label.
+   `cred` stands for the whole value of the KubeContext (dataclass equality, expiration included);
+   `init` assumes the initial credentials are not yet expired. *)
 From Coq Require Import ZArith List Bool Arith.
 Import ListNotations.
 
 (* VaultItem: identity (object identity of the item / of its info), the credentials' value
    (dataclass equality of the KubeContext), priority *)
-Record item := { iid : nat; cred : Z; prio : Z }.
+Record item := { iid : nat; cred : Z; prio : Z; exp : option Z }.
 
 Inductive rstate :=
-| RIdle                          (* not holding an item: before select(), or between two loops *)
+| RIdle                          (* not holding an item: before select(), or between two calls *)
+| RExpWait                       (* inside _items/_expire: dropped the last item, waiting for _ready *)
 | RHold (k : nat) (it : item)    (* _items yielded (k, it): fn is running with its context *)
-| RBlocked.                      (* inside invalidate(): waiting for _ready *)
+| RBlocked (k : nat) (it : item) (* inside invalidate(k, it): waiting for _ready *)
+| RAfter (k : nat) (it : item).  (* invalidate() returned: _items is about to re-check the yielded item *)
 
 Inductive wake_out := WStill | WResumed | WLoginErr.
 
 Inductive vlabel :=
+| Expire (r : nat) (now : Z) (blocked : bool)  (* _items: _expire() at wall-clock `now`; does it wait? *)
+| WakeExp (r : nat) (o : wake_out)      (* a requester waiting in _expire got the lock again *)
 | Select (r k id : nat)                 (* select() returned the item `id` under key k *)
 | SelectErr (r : nat)                   (* select() raised LoginError (ready, but nothing to use) *)
 | Done (r : nat)                        (* fn returned or failed with a non-auth error *)
 | Invalidate (r : nat) (blocked : bool) (* invalidate(key, info): first critical section; does it wait? *)
 | Wake (r : nat) (o : wake_out)         (* a blocked requester got the lock again *)
+| Recheck (r : nat) (again : bool)      (* _items after the yield: loop again (true) or stop iterating (false
+                                           = @authenticated raises "end of the authentication cycle") *)
 | WakeEmpty                             (* authenticator: wait_for_emptiness() returned *)
-| Populate (src : list (nat * Z * Z)).  (* populate({key: info(cred, prio)}) *)
+| Populate (src : list (nat * Z * Z * option Z)).  (* populate({key: info(cred, prio, expiration)}) *)
 
 Record vstate := {
   cur : list (nat * item);              (* _current *)
@@ -38,7 +50,8 @@ Record vstate := {
   wakes : nat;                          (* re-authentication episodes started *)
   flips : nat;                          (* times the vault went not-ready (incl. initially empty) *)
   invalidated : list nat;               (* identities removed by invalidate *)
-  barren : nat                          (* populate calls that left the vault empty *)
+  barren : nat;                         (* populate calls that left the vault empty *)
+  expirations : nat                     (* _expire() calls that emptied the vault *)
 }.
 
 Fixpoint lookupn {A} (k : nat) (l : list (nat * A)) : option A :=
@@ -77,27 +90,80 @@ Definition top_prio (c : list (nat * item)) (p : Z) : bool :=
 Definition cred_in (c : Z) (l : list item) : bool := existsb (fun it => Z.eqb (cred it) c) l.
 
 (* _update_converted *)
-Fixpoint update_converted (src : list (nat * Z * Z)) (c : list (nat * item)) (iv : list (nat * list item)) (n : nat)
+Fixpoint update_converted (src : list (nat * Z * Z * option Z)) (c : list (nat * item)) (iv : list (nat * list item)) (n : nat)
   : list (nat * item) * nat :=
   match src with
   | [] => (c, n)
-  | (k, cr, p) :: src' =>
+  | (k, cr, p, e) :: src' =>
       if cred_in cr (hist k iv)
       then update_converted src' c iv n
-      else update_converted src' (setn k {| iid := n; cred := cr; prio := p |} c) iv (S n)
+      else update_converted src' (setn k {| iid := n; cred := cr; prio := p; exp := e |} c) iv (S n)
   end.
+
+(* `now >= expiration` *)
+Definition expired_at (now : Z) (it : item) : bool :=
+  match exp it with Some e => Z.leb e now | None => false end.
+
+Definition drop_expired (now : Z) (c : list (nat * item)) : list (nat * item) :=
+  filter (fun kv => negb (expired_at now (snd kv))) c.
+
+Definition is_current (k : nat) (it : item) (c : list (nat * item)) : bool :=
+  match lookupn k c with Some it' => Nat.eqb (iid it') (iid it) | None => false end.
 
 Definition with_req (s : vstate) (r : nat) (x : rstate) : list (nat * rstate) := setn r x (req s).
 
+Definition upd (s : vstate) (c : list (nat * item)) (iv : list (nat * list item)) (rd bz : bool) (n : nat)
+               (rq : list (nat * rstate)) (wk fl : nat) (invd : list nat) (br ex : nat) : vstate :=
+  {| cur := c; inv := iv; ready := rd; busy := bz; nextid := n; req := rq;
+     wakes := wk; flips := fl; invalidated := invd; barren := br; expirations := ex |}.
+
+Definition set_req (s : vstate) (r : nat) (x : rstate) : vstate :=
+  upd s (cur s) (inv s) (ready s) (busy s) (nextid s) (with_req s r x)
+      (wakes s) (flips s) (invalidated s) (barren s) (expirations s).
+
+Definition wake_expect (s : vstate) : wake_out :=
+  if ready s then (if is_empty (cur s) then WLoginErr else WResumed) else WStill.
+
+Definition wake_eqb (a b : wake_out) : bool :=
+  match a, b with
+  | WStill, WStill | WResumed, WResumed | WLoginErr, WLoginErr => true
+  | _, _ => false
+  end.
+
 Definition step (s : vstate) (l : vlabel) : option vstate :=
   match l with
+  | Expire r now blocked =>
+      match rget r s with
+      | RIdle =>
+          if ready s
+          then
+            let cur' := drop_expired now (cur s) in
+            let dropped := negb (Nat.eqb (length cur') (length (cur s))) in
+            let waits := dropped && is_empty cur' in
+            if Bool.eqb blocked waits
+            then Some (upd s cur' (inv s) (if waits then false else true) (busy s) (nextid s)
+                           (with_req s r (if waits then RExpWait else RIdle))
+                           (wakes s) (if waits then S (flips s) else flips s) (invalidated s) (barren s)
+                           (if waits then S (expirations s) else expirations s))
+            else None
+          else None
+      | _ => None
+      end
+  | WakeExp r o =>
+      match rget r s with
+      | RExpWait =>
+          (* after the wait select() follows at once: an empty vault shows as SelectErr there *)
+          let expect := if ready s then WResumed else WStill in
+          if wake_eqb o expect
+          then Some (set_req s r (if ready s then RIdle else RExpWait))
+          else None
+      | _ => None
+      end
   | Select r k id =>
       match rget r s, lookupn k (cur s) with
       | RIdle, Some it =>
           if ready s && Nat.eqb (iid it) id && top_prio (cur s) (prio it)
-          then Some {| cur := cur s; inv := inv s; ready := ready s; busy := busy s; nextid := nextid s;
-                       req := with_req s r (RHold k it);
-                       wakes := wakes s; flips := flips s; invalidated := invalidated s; barren := barren s |}
+          then Some (set_req s r (RHold k it))
           else None
       | _, _ => None
       end
@@ -108,10 +174,7 @@ Definition step (s : vstate) (l : vlabel) : option vstate :=
       end
   | Done r =>
       match rget r s with
-      | RHold _ _ =>
-          Some {| cur := cur s; inv := inv s; ready := ready s; busy := busy s; nextid := nextid s;
-                  req := with_req s r RIdle;
-                  wakes := wakes s; flips := flips s; invalidated := invalidated s; barren := barren s |}
+      | RHold _ _ => Some (set_req s r RIdle)
       | _ => None
       end
   | Invalidate r blocked =>
@@ -128,42 +191,40 @@ Definition step (s : vstate) (l : vlabel) : option vstate :=
           let invd := if eff then iid it :: invalidated s else invalidated s in
           let empty := is_empty cur' in
           if Bool.eqb blocked empty
-          then Some {| cur := cur'; inv := inv';
-                       ready := if empty then false else ready s;
-                       busy := busy s; nextid := nextid s;
-                       req := with_req s r (if empty then RBlocked else RIdle);
-                       wakes := wakes s;
-                       flips := if empty && ready s then S (flips s) else flips s;
-                       invalidated := invd; barren := barren s |}
+          then Some (upd s cur' inv' (if empty then false else ready s) (busy s) (nextid s)
+                         (with_req s r (if empty then RBlocked k it else RAfter k it))
+                         (wakes s) (if empty && ready s then S (flips s) else flips s) invd (barren s) (expirations s))
           else None
       | _ => None
       end
   | Wake r o =>
       match rget r s with
-      | RBlocked =>
-          let expect := if ready s then (if is_empty (cur s) then WLoginErr else WResumed) else WStill in
-          let same := match o, expect with
-                      | WStill, WStill | WResumed, WResumed | WLoginErr, WLoginErr => true
-                      | _, _ => false end in
-          if same
-          then Some {| cur := cur s; inv := inv s; ready := ready s; busy := busy s; nextid := nextid s;
-                       req := with_req s r (if ready s then RIdle else RBlocked);
-                       wakes := wakes s; flips := flips s; invalidated := invalidated s; barren := barren s |}
+      | RBlocked k it =>
+          if wake_eqb o (wake_expect s)
+          then Some (set_req s r (if ready s then (if is_empty (cur s) then RIdle else RAfter k it) else RBlocked k it))
+          else None
+      | _ => None
+      end
+  | Recheck r again =>
+      match rget r s with
+      | RAfter k it =>
+          if Bool.eqb again (negb (is_current k it (cur s)))
+          then Some (set_req s r RIdle)
           else None
       | _ => None
       end
   | WakeEmpty =>
       if negb (ready s) && negb (busy s)
-      then Some {| cur := cur s; inv := inv s; ready := false; busy := true; nextid := nextid s; req := req s;
-                   wakes := S (wakes s); flips := flips s; invalidated := invalidated s; barren := barren s |}
+      then Some (upd s (cur s) (inv s) false true (nextid s) (req s)
+                     (S (wakes s)) (flips s) (invalidated s) (barren s) (expirations s))
       else None
   | Populate src =>
       if busy s
       then match update_converted src (cur s) (inv s) (nextid s) with
            | (c', n') =>
-               Some {| cur := c'; inv := inv s; ready := true; busy := false; nextid := n'; req := req s;
-                       wakes := wakes s; flips := flips s; invalidated := invalidated s;
-                       barren := if is_empty c' then S (barren s) else barren s |}
+               Some (upd s c' (inv s) true false n' (req s)
+                         (wakes s) (flips s) (invalidated s)
+                         (if is_empty c' then S (barren s) else barren s) (expirations s))
            end
       else None
   end.
@@ -175,11 +236,11 @@ Fixpoint run (s : vstate) (tr : list vlabel) : option vstate :=
   end.
 
 (* Vault(src): pre-populated is ready at once, empty triggers the initial authentication *)
-Definition init (src : list (nat * Z * Z)) : vstate :=
+Definition init (src : list (nat * Z * Z * option Z)) : vstate :=
   match update_converted src [] [] O with
   | (c, n) =>
       {| cur := c; inv := []; ready := negb (is_empty c); busy := false; nextid := n; req := [];
-         wakes := O; flips := if is_empty c then 1%nat else O; invalidated := []; barren := O |}
+         wakes := O; flips := if is_empty c then 1%nat else O; invalidated := []; barren := O; expirations := O |}
   end.
 
 (* index of the first rejected label (for diagnostics), None = accepted *)
@@ -189,7 +250,7 @@ Fixpoint rejected_at (s : vstate) (tr : list vlabel) (i : nat) : option nat :=
   | l :: tr' => match step s l with Some s' => rejected_at s' tr' (S i) | None => Some i end
   end.
 
-Definition accepts (src : list (nat * Z * Z)) (tr : list vlabel) : bool :=
+Definition accepts (src : list (nat * Z * Z * option Z)) (tr : list vlabel) : bool :=
   match run (init src) tr with Some _ => true | None => false end.
 
 (* state abstraction snapshotted from the implementation at the end of a scenario:
@@ -198,6 +259,6 @@ Definition accepts (src : list (nat * Z * Z)) (tr : list vlabel) : bool :=
 Definition cur_ids (s : vstate) : list (nat * nat) := map (fun kv => (fst kv, iid (snd kv))) (cur s).
 Definition inv_creds (s : vstate) (k : nat) : list Z := map cred (hist k (inv s)).
 
-Definition final_ok (src : list (nat * Z * Z)) (tr : list vlabel)
+Definition final_ok (src : list (nat * Z * Z * option Z)) (tr : list vlabel)
            (chk : vstate -> bool) : bool :=
   match run (init src) tr with Some s => chk s | None => false end.
